@@ -364,6 +364,7 @@ pub fn dispatch(cmd: &str, args: &[String], line: &str) {
             "entry2d" => crate::entry2::entry2d(args, &mut checks),
             "builder" => crate::entry2::builder_table(args, &mut checks),
             "lanes" => crate::entry2::lane_alone(args, &mut checks),
+            "layouts" => crate::entry2::layouts(args, &mut checks),
             other => panic!("unknown scenario command {other}"),
         }
     }));
